@@ -90,6 +90,20 @@ Theorem c13_error_response_valid :
 Proof. exact error_response_valid. Qed.
 Print Assumptions c13_error_response_valid.
 
+(* metadata.entity_descriptor: the EntityDescriptor shell (entityID, validUntil, Extensions, role descriptors,
+   Organization built by do_organization_info, ContactPerson) around role descriptors as serialised *)
+Theorem c13_entity_descriptor_valid :
+  forall a,
+    opt_lexb LDateTime (ed_valid_until a) = true -> org_ok (ed_org a) = true ->
+    forallb (valid live_table (CK k_md_ContactPerson)) (ed_contacts a) = true ->
+    forallb (ext_ok live_table ci_mdExtensions) (ed_ext a) = true ->
+    opt_valid k_md_IDPSSODescriptor (ed_idp a) = true -> opt_valid k_md_SPSSODescriptor (ed_sp a) = true ->
+    opt_valid k_md_AuthnAuthorityDescriptor (ed_aq a) = true -> opt_valid k_md_AttributeAuthorityDescriptor (ed_aa a) = true ->
+    opt_valid k_md_PDPDescriptor (ed_pdp a) = true ->
+    spec live_table (to_tree live_table (entity_descriptor a)).
+Proof. exact entity_descriptor_valid. Qed.
+Print Assumptions c13_entity_descriptor_valid.
+
 (* ---- the generators of lexical values, for all inputs *)
 Theorem c13_sid_lexical : forall r, all_chars alnum r = true -> check_lex LNCName (sid r) = true.
 Proof. exact sid_is_ncname. Qed.
